@@ -450,6 +450,7 @@ func (f *PartialFamily) Step(n *Node, op Op) StepResult {
 // [delete / verify-remember / prune one leaf], S = every subset of size <= 2 plus every subset of the
 // window of slots 2..9; the full C09 oracle after every step.
 func partialMedium(c *Ctx, collect ...string) {
+	defer c.Phase("structured partial-forest families")()
 	Ns := []int{12}
 	trs := []uint8{0, 63}
 	if c.Thorough() {
